@@ -2,7 +2,7 @@
   JSON encoding of the M12 syntax (values, public-API expressions) shared by `drivers/C16.lean` and
   `drivers/C17.lean`, and the request handler both use.  Core Lean only.
 
-  Val  : null | true | false | ["i", n] | ["f", h] (the float h/2) | ["s", text] | ["l", [Val…]] | ["d", [[key, Val]…]]
+  Val  : null | true | false | ["i", n] | ["f", h] (the float h/2) | ["nan", source] (a float NaN; the source is ignored) | ["s", text] | ["l", [Val…]] | ["d", [[key, Val]…]]
          key : "text" (a str key) | null | true | false | ["i", n] | ["f", h]
   Expr : [constructor, args…]   e.g. ["all_of", [["is_not_none"], ["greater_than", ["i", 0]]]]
 -/
@@ -42,6 +42,7 @@ partial def parseVal (j : Json) : Except String Val :=
     match tag with
     | "i" => pure (.int (← getInt x))
     | "f" => pure (.float (← getInt x))
+    | "nan" => pure .nan                      -- ["nan", source]: the source / identity of the NaN object means nothing to the model
     | "s" => pure (.str (← x.getStr?).toList)
     | "l" => do
       let xs ← (← x.getArr?).toList.mapM parseVal
